@@ -358,6 +358,20 @@ fn dump_fn<'tcx>(tcx: TyCtxt<'tcx>, ldid: LocalDefId, kind: DefKind, hir_filter:
         blocks.push(cx.block(data));
     }
     o.set("blocks", J::Arr(blocks));
+    // promoted constants (`&CONST_EXPR` temporaries): tiny bodies whose _0 is the promoted value
+    let proms = tcx.promoted_mir(did);
+    if !proms.is_empty() {
+        let mut ps = Vec::new();
+        for pb in proms.iter() {
+            let pcx = FnCx { tcx, body: pb, def: ldid, env: TypingEnv::post_analysis(tcx, did) };
+            let mut bl = Vec::new();
+            for (_bb, data) in pb.basic_blocks.iter_enumerated() {
+                bl.push(pcx.block(data));
+            }
+            ps.push(J::Arr(bl));
+        }
+        o.set("promoted", J::Arr(ps));
+    }
 
     if kind != DefKind::Closure || true {
         let want = hir_filter.iter().any(|f| f == "*" || path.contains(f.as_str()) || key.contains(f.as_str()));
@@ -692,6 +706,9 @@ impl<'a, 'tcx> FnCx<'a, 'tcx> {
                     }
                     if let Const::Unevaluated(u, _) = c.const_ {
                         k.set("name", J::s(&self.tcx.def_path_str(u.def)));
+                        if let Some(p) = u.promoted {
+                            k.set("promoted", J::Int(p.as_usize() as i128));
+                        }
                     }
                 }
                 o.set("k", k);
